@@ -148,6 +148,18 @@ def check_compact(ctx, alg, kid, payload, extra_header, form, n_flips):
         ctx.violation("C01:interop:reference-token-refused-by-authlib:%s" % alg, "a token produced by the independent implementation is refused by the library", case)
     # --- round trip with the matching key, then every mutation, then other keys
     tests = [("original", token, vkid)] + [(lab, t, vkid) for lab, t in mutations(rng, token, n_flips)]
+    if alg == "ES512":
+        # an ECDSA signature whose r and s BOTH begin with a zero octet, written without those octets, is not the fixed-width R || S
+        # of RFC 7518 section 3.4 and must be refused; P-521 values have 7 leading zero bits anyway, so one signature in four has
+        # the shape -- sign again until one does (the chance of 48 failures is about 1e-6), so that the case runs on every seed
+        for _ in range(48):
+            tz = bytes(jws.serialize_compact(protected, payload, R.material(kid, form)))
+            rz = b64d(tz.rsplit(b".", 1)[1])
+            if len(rz) == 132 and rz[0] == 0 and rz[66] == 0:
+                short = base64.urlsafe_b64encode(rz[1:66] + rz[67:]).rstrip(b"=")
+                tests.append(("sig-reencoded:halves-stripped-scripted", tz.rsplit(b".", 1)[0] + b"." + short, vkid))
+                tests.append(("sig-reencoded:r-stripped-scripted", tz.rsplit(b".", 1)[0] + b"." + base64.urlsafe_b64encode(rz[1:]).rstrip(b"="), vkid))
+                break
     tests.append(("other-key", token, R.other_key_for(alg) + ("" if alg.startswith("HS") or alg == "none" else ".pub")))
     if alg != "none":
         tests.append(("other-family-key", token, "oct2" if not alg.startswith("HS") else "rsa1.pub"))
